@@ -85,9 +85,12 @@ func runWorker(spec *props.Spec, tier string, seed uint64, offset, stride, runs 
 			runtime.GC()
 			runtime.GC()
 		}
+		ev0, st0 := cov.Evaluations, cov.Steps
+		cov.Digest = ""
 		vs := spec.Run(r, uint64(i), seed, tier, cov)
 		out.Runs++
-		one := fmt.Sprintf("%d:%d:%d:%d:%s;", i, r.Draws, cov.Evaluations, cov.Steps, cov.Digest)
+		// run-local: independent of what this process did before
+		one := fmt.Sprintf("%d:%d:%d:%d:%s;", i, r.Draws, cov.Evaluations-ev0, cov.Steps-st0, cov.Digest)
 		for _, v := range vs {
 			one += "V" + v.Clause + ";"
 			if len(out.Violations) < 40 {
@@ -188,6 +191,41 @@ func replay(path string) int {
 		die(2, "replay: property %s is not served by this binary", rf.Property)
 	}
 	pinProcs(spec)
+	if rf.Case.Mode == "isolation" {
+		var ex struct {
+			Tier   string `json:"tier"`
+			Stride int    `json:"stride"`
+			Runs   int    `json:"runs"`
+			Index  int    `json:"index_in_sequence"`
+		}
+		json.Unmarshal(rf.Case.Extra, &ex)
+		self, _ := os.Executable()
+		digest := func(args []string, env ...string) string {
+			cmd := exec.Command(self, args...)
+			cmd.Env = append(os.Environ(), env...)
+			b, err := cmd.Output()
+			if err != nil {
+				die(2, "replay: %v", err)
+			}
+			var o workerOut
+			if err := json.Unmarshal(b, &o); err != nil || len(o.RunDigests) == 0 {
+				die(2, "replay: bad worker output")
+			}
+			return o.RunDigests[len(o.RunDigests)-1]
+		}
+		wp := spec.WorkerProcs
+		if wp == "" {
+			wp = "2"
+		}
+		seq := digest([]string{"worker", rf.Property, ex.Tier, fmt.Sprint(rf.Seed), "0", fmt.Sprint(ex.Stride), fmt.Sprint(ex.Runs)}, "GOMAXPROCS="+wp, fmt.Sprintf("VERIF_SELFTEST_LIMIT=%d", ex.Index+1))
+		alone := digest([]string{"worker", rf.Property, ex.Tier, fmt.Sprint(rf.Seed), fmt.Sprint(rf.Run), "1000000000", fmt.Sprint(ex.Runs)}, "GOMAXPROCS="+wp)
+		if seq != alone {
+			fmt.Printf("replay: run %d: digest %s as the %d-th run of a process, %s alone\nREPRODUCED property=%s clause=%s\n", rf.Run, seq, ex.Index+1, alone, rf.Property, rf.Clause)
+			return 1
+		}
+		fmt.Printf("NOT-REPRODUCED property=%s clause=%s\n", rf.Property, rf.Clause)
+		return 0
+	}
 	vs := spec.Check(rf.Case, props.NewCov())
 	same := false
 	for _, v := range vs {
@@ -333,6 +371,7 @@ func orchestrate(prop, tier string) int {
 	}
 
 	extra := map[string]any{}
+	var infra []error
 	// determinism self-test of the simulator: the first runs of worker 0 again,
 	// in fresh processes under other GOMAXPROCS; the per-run digests (PRNG
 	// draws, events, result hashes, clauses) must be identical.
@@ -354,28 +393,68 @@ func orchestrate(prop, tier string) int {
 			var so, se bytes.Buffer
 			cmd.Stdout, cmd.Stderr = &so, &se
 			if err := cmd.Run(); err != nil {
-				fmt.Fprintf(os.Stderr, "INFRASTRUCTURE: self-test worker: %v: %s\n", err, tail(se.String(), 1500))
-				return 2
+				infra = append(infra, fmt.Errorf("self-test worker: %v: %s", err, tail(se.String(), 1500)))
+				break
 			}
 			var o workerOut
 			if err := json.Unmarshal(so.Bytes(), &o); err != nil {
-				fmt.Fprintf(os.Stderr, "INFRASTRUCTURE: self-test worker output: %v\n", err)
-				return 2
+				infra = append(infra, fmt.Errorf("self-test worker output: %v", err))
+				break
 			}
 			for i := 0; i < k; i++ {
 				if i >= len(o.RunDigests) || o.RunDigests[i] != outs[0].RunDigests[i] {
-					fmt.Fprintf(os.Stderr, "INFRASTRUCTURE: simulator nondeterminism: run #%d of worker 0 gives a different event digest when repeated in a fresh process with GOMAXPROCS=%s\n", i, procs)
-					return 2
+					infra = append(infra, fmt.Errorf("simulator nondeterminism: run #%d of worker 0 gives a different event digest when repeated in a fresh process with GOMAXPROCS=%s", i, procs))
+					break
 				}
 			}
 		}
 		extra["determinism_selftest"] = fmt.Sprintf("%d runs re-executed in %d fresh processes (GOMAXPROCS %v): per-run digests of PRNG draws, events, result hashes and clauses identical", k, len(stp), stp)
 	}
+	// isolation: runs deep in worker 0's sequence again, each ALONE in a fresh
+	// process. The simulator keeps no state between runs, so a different result
+	// digest means the library's result depends on what the process did before.
+	if spec.IsolationClause != "" && len(outs[0].RunDigests) > 1 {
+		k := 3
+		if tier == "thorough" {
+			k = 40
+		}
+		n := len(outs[0].RunDigests)
+		for j := 0; j < k && j < n-1; j++ {
+			idx := n - 1 - j*((n-1)/k+1)
+			if idx < 1 {
+				break
+			}
+			runIdx := idx * workers // worker 0: offset 0, stride = workers
+			cmd := exec.Command(self, "worker", prop, tier, fmt.Sprint(seed), fmt.Sprint(runIdx), "1000000000", fmt.Sprint(runs))
+			wp := spec.WorkerProcs
+			if wp == "" {
+				wp = "2"
+			}
+			cmd.Env = append(os.Environ(), "GOMAXPROCS="+wp)
+			var so, se bytes.Buffer
+			cmd.Stdout, cmd.Stderr = &so, &se
+			var o workerOut
+			if err := cmd.Run(); err != nil {
+				infra = append(infra, fmt.Errorf("isolation worker: %v: %s", err, tail(se.String(), 800)))
+				break
+			}
+			if err := json.Unmarshal(so.Bytes(), &o); err != nil || len(o.RunDigests) != 1 {
+				infra = append(infra, fmt.Errorf("isolation worker output: %v", err))
+				break
+			}
+			if o.RunDigests[0] != outs[0].RunDigests[idx] {
+				ex, _ := json.Marshal(map[string]any{"tier": tier, "stride": workers, "runs": runs, "index_in_sequence": idx})
+				all = append(all, &props.Violation{Prop: prop, Clause: spec.IsolationClause, Msg: fmt.Sprintf("run %d gives a different result digest when it is the %d-th run of a process than when it is executed alone in a fresh process: the outcome depends on earlier calls in the same process", runIdx, idx+1),
+					Case: &props.Case{Prop: prop, Seed: seed, Run: uint64(runIdx), Mode: "isolation", Extra: ex}})
+				break
+			}
+		}
+		extra["isolation_test"] = fmt.Sprintf("%d runs taken from deep in a worker's sequence re-executed alone in fresh processes; result digests compared", k)
+	}
 	posts := spec.Posts
 	if spec.Post != nil {
 		posts = append([]func(uint64, string, *props.Cov) ([]*props.Violation, map[string]any, error){spec.Post}, posts...)
 	}
-	var infra []error
 	for _, post := range posts {
 		vs, ex, err := post(seed, tier, total)
 		if err != nil {
@@ -412,7 +491,12 @@ func orchestrate(prop, tier string) int {
 		nviol++
 		path, code := report(spec, v, dir, seed, knownIDs)
 		if code == 2 {
-			return 2
+			// not reproducible from its materialised case: reported as
+			// infrastructure trouble, never as a VIOLATION; other violations of
+			// this batch are still reported
+			infra = append(infra, fmt.Errorf("a %s violation was dropped because it did not replay", v.Clause))
+			nviol--
+			continue
 		}
 		fmt.Printf("VIOLATION property=%s replay=%s\n", prop, path)
 		fmt.Printf("  clause=%s %s\n", v.Clause, clipS(v.Msg, 600))
@@ -475,6 +559,21 @@ func report(spec *props.Spec, v *props.Violation, dir string, seed uint64, known
 	}
 	min := v.Case
 	msg := v.Msg
+	if v.Case.Mode == "isolation" {
+		name := fmt.Sprintf("%s-%d-%d-isolation.json", spec.ID, seed, v.Case.Run)
+		path := filepath.Join(dir, "replays", name)
+		rf := replayFile{Property: spec.ID, Clause: v.Clause, Message: msg, Deterministic: true, Seed: seed, Run: v.Case.Run, Case: v.Case, ReplayCmd: "/verif/run.sh replay " + path}
+		b, _ := json.MarshalIndent(rf, "", " ")
+		os.WriteFile(path, b, 0o644)
+		self, _ := os.Executable()
+		cmd := exec.Command(self, "replay", path)
+		out, _ := cmd.CombinedOutput()
+		if cmd.ProcessState == nil || cmd.ProcessState.ExitCode() != 1 {
+			fmt.Fprintf(os.Stderr, "INFRASTRUCTURE: fresh-process replay of %s did not reproduce: %s\n", path, tail(string(out), 800))
+			return "", 2
+		}
+		return path, 0
+	}
 	if v.Case.Mode == "free-running" {
 		// uncontrolled schedule: the witness is the stored report; no shrinking,
 		// no exact replay is claimed
